@@ -1,3 +1,5 @@
+//go:build !skip_c18
+
 package main
 
 // C18 — storage cleaning removes only expired material and nothing else.
@@ -121,7 +123,7 @@ type c18Wrap struct {
 	announce func()
 }
 
-var errInjected = errors.New("injected storage fault")
+var c18ErrInjected = errors.New("injected storage fault")
 
 func (w *c18Wrap) String() string { return fmt.Sprintf("c18wrap:%d", w.tid) }
 
@@ -137,18 +139,18 @@ func (w *c18Wrap) begin() (idx int, fault bool) {
 	return idx, w.faults[idx]
 }
 
-func live(ctx context.Context) context.Context { return context.WithoutCancel(ctx) }
+func c18Live(ctx context.Context) context.Context { return context.WithoutCancel(ctx) }
 
 func (w *c18Wrap) Lock(ctx context.Context, name string) error {
 	_, fault := w.begin()
 	if fault {
 		w.tr.add(c18Event{w.tid, 0, name, false})
-		return errInjected
+		return c18ErrInjected
 	}
 	if w.announce != nil {
 		w.announce()
 	}
-	err := w.inner.Lock(live(ctx), name)
+	err := w.inner.Lock(c18Live(ctx), name)
 	w.tLock = time.Now()
 	w.tr.add(c18Event{w.tid, 0, name, err == nil})
 	return err
@@ -158,9 +160,9 @@ func (w *c18Wrap) Unlock(ctx context.Context, name string) error {
 	_, fault := w.begin()
 	w.tUnlock = time.Now()
 	i := w.tr.add(c18Event{w.tid, 1, name, !fault})
-	err := w.inner.Unlock(live(ctx), name)
+	err := w.inner.Unlock(c18Live(ctx), name)
 	if fault {
-		return errInjected
+		return c18ErrInjected
 	}
 	if err != nil {
 		w.tr.setOK(i, false)
@@ -172,9 +174,9 @@ func (w *c18Wrap) Load(ctx context.Context, key string) ([]byte, error) {
 	_, fault := w.begin()
 	if fault {
 		w.tr.add(c18Event{w.tid, 2, key, false})
-		return nil, errInjected
+		return nil, c18ErrInjected
 	}
-	b, err := w.inner.Load(live(ctx), key)
+	b, err := w.inner.Load(c18Live(ctx), key)
 	w.tr.add(c18Event{w.tid, 2, key, err == nil})
 	return b, err
 }
@@ -184,9 +186,9 @@ func (w *c18Wrap) List(ctx context.Context, prefix string, recursive bool) ([]st
 	kind := 3 // a recursive listing is recorded as a List too: the model (non-recursive) then disagrees on what follows
 	if fault {
 		w.tr.add(c18Event{w.tid, kind, prefix, false})
-		return nil, errInjected
+		return nil, c18ErrInjected
 	}
-	l, err := w.inner.List(live(ctx), prefix, recursive)
+	l, err := w.inner.List(c18Live(ctx), prefix, recursive)
 	w.tr.add(c18Event{w.tid, kind, prefix, err == nil})
 	return l, err
 }
@@ -195,9 +197,9 @@ func (w *c18Wrap) Stat(ctx context.Context, key string) (certmagic.KeyInfo, erro
 	_, fault := w.begin()
 	if fault {
 		w.tr.add(c18Event{w.tid, 4, key, false})
-		return certmagic.KeyInfo{}, errInjected
+		return certmagic.KeyInfo{}, c18ErrInjected
 	}
-	ki, err := w.inner.Stat(live(ctx), key)
+	ki, err := w.inner.Stat(c18Live(ctx), key)
 	w.tr.add(c18Event{w.tid, 4, key, err == nil})
 	return ki, err
 }
@@ -206,9 +208,9 @@ func (w *c18Wrap) Delete(ctx context.Context, key string) error {
 	_, fault := w.begin()
 	if fault {
 		w.tr.add(c18Event{w.tid, 5, key, false})
-		return errInjected
+		return c18ErrInjected
 	}
-	err := w.inner.Delete(live(ctx), key)
+	err := w.inner.Delete(c18Live(ctx), key)
 	w.tr.add(c18Event{w.tid, 5, key, err == nil})
 	return err
 }
@@ -217,9 +219,9 @@ func (w *c18Wrap) Store(ctx context.Context, key string, value []byte) error {
 	_, fault := w.begin()
 	if fault {
 		w.tr.add(c18Event{w.tid, 6, key, false})
-		return errInjected
+		return c18ErrInjected
 	}
-	err := w.inner.Store(live(ctx), key, value)
+	err := w.inner.Store(c18Live(ctx), key, value)
 	w.tr.add(c18Event{w.tid, 6, key, err == nil})
 	return err
 }
@@ -227,7 +229,7 @@ func (w *c18Wrap) Store(ctx context.Context, key string, value []byte) error {
 func (w *c18Wrap) Exists(ctx context.Context, key string) bool {
 	w.begin()
 	w.tr.add(c18Event{w.tid, 7, key, true}) // CleanStorage never calls Exists: unknown kind => decode error, reported
-	return w.inner.Exists(live(ctx), key)
+	return w.inner.Exists(c18Live(ctx), key)
 }
 
 // ---------------------------------------------------------------- material
@@ -238,7 +240,7 @@ type c18Mat struct {
 	keyPEM []byte
 }
 
-func newC18Mat() *c18Mat {
+func c18NewMat() *c18Mat {
 	k, err := ecdsa.GenerateKey(elliptic.P256(), crand.Reader)
 	if err != nil {
 		panic(err)
@@ -268,7 +270,7 @@ func (m *c18Mat) staple(nextUpdate time.Time, withNext bool) []byte {
 	return der
 }
 
-func siteName(key string) string {
+func c18SiteName(key string) string {
 	parts := strings.Split(key, "/")
 	if len(parts) >= 3 {
 		n := strings.ReplaceAll(parts[2], "wildcard_", "*")
@@ -283,7 +285,7 @@ func siteName(key string) string {
 func (m *c18Mat) bytesOf(it c18Item, now time.Time) []byte {
 	switch it.Kind {
 	case "cert":
-		return m.cert(siteName(it.Key), now.Add(time.Duration(it.Off)*time.Second))
+		return m.cert(c18SiteName(it.Key), now.Add(time.Duration(it.Off)*time.Second))
 	case "staple":
 		return m.staple(now.Add(time.Duration(it.Off)*time.Second), true)
 	case "staple0":
@@ -321,27 +323,27 @@ type c18Cls struct {
 	CleanID string
 }
 
-func unixNs(t time.Time) *big.Int {
+func c18UnixNs(t time.Time) *big.Int {
 	x := new(big.Int).Mul(big.NewInt(t.Unix()), big.NewInt(1e9))
 	return x.Add(x, big.NewInt(int64(t.Nanosecond())))
 }
 
-func classify(b []byte) c18Cls {
+func c18Classify(b []byte) c18Cls {
 	var c c18Cls
 	if blk, _ := pem.Decode(b); blk != nil && blk.Type == "CERTIFICATE" {
 		if crt, err := x509.ParseCertificate(blk.Bytes); err == nil {
-			c.Cert = unixNs(crt.NotAfter)
+			c.Cert = c18UnixNs(crt.NotAfter)
 		}
 	}
 	if resp, err := ocsp.ParseResponse(b, nil); err == nil {
-		c.Staple = unixNs(resp.NextUpdate)
+		c.Staple = c18UnixNs(resp.NextUpdate)
 	}
 	var lc map[string]struct {
 		Timestamp  time.Time `json:"timestamp"`
 		InstanceID string    `json:"instance_id,omitempty"`
 	}
 	if err := json.Unmarshal(b, &lc); err == nil {
-		c.Clean = unixNs(lc["tls"].Timestamp)
+		c.Clean = c18UnixNs(lc["tls"].Timestamp)
 		c.CleanID = lc["tls"].InstanceID
 	}
 	return c
@@ -362,13 +364,13 @@ type c18Backend interface {
 	close()
 }
 
-type memBE struct{ b *doubles.MemBackend }
+type c18MemBE struct{ b *doubles.MemBackend }
 
-func (m *memBE) storage() certmagic.Storage { return m.b.Handle("c18") }
-func (m *memBE) put(k string, v []byte)     { m.b.Put(k, v) }
-func (m *memBE) mkdir(string)               {}
-func (m *memBE) close()                     {}
-func (m *memBE) snapshot() map[string]c18Node {
+func (m *c18MemBE) storage() certmagic.Storage { return m.b.Handle("c18") }
+func (m *c18MemBE) put(k string, v []byte)     { m.b.Put(k, v) }
+func (m *c18MemBE) mkdir(string)               {}
+func (m *c18MemBE) close()                     {}
+func (m *c18MemBE) snapshot() map[string]c18Node {
 	out := map[string]c18Node{}
 	for _, k := range m.b.Keys() {
 		v, _ := m.b.Get(k)
@@ -377,19 +379,19 @@ func (m *memBE) snapshot() map[string]c18Node {
 	return out
 }
 
-type fsBE struct{ dir string }
+type c18FsBE struct{ dir string }
 
-func (f *fsBE) storage() certmagic.Storage { return &certmagic.FileStorage{Path: f.dir} }
-func (f *fsBE) put(k string, v []byte) {
+func (f *c18FsBE) storage() certmagic.Storage { return &certmagic.FileStorage{Path: f.dir} }
+func (f *c18FsBE) put(k string, v []byte) {
 	p := filepath.Join(f.dir, filepath.FromSlash(k))
 	os.MkdirAll(filepath.Dir(p), 0o700)
 	if err := os.WriteFile(p, v, 0o600); err != nil {
 		panic(err)
 	}
 }
-func (f *fsBE) mkdir(k string) { os.MkdirAll(filepath.Join(f.dir, filepath.FromSlash(k)), 0o700) }
-func (f *fsBE) close()         { os.RemoveAll(f.dir) }
-func (f *fsBE) snapshot() map[string]c18Node {
+func (f *c18FsBE) mkdir(k string) { os.MkdirAll(filepath.Join(f.dir, filepath.FromSlash(k)), 0o700) }
+func (f *c18FsBE) close()         { os.RemoveAll(f.dir) }
+func (f *c18FsBE) snapshot() map[string]c18Node {
 	out := map[string]c18Node{}
 	filepath.Walk(f.dir, func(p string, info os.FileInfo, err error) error {
 		if err != nil || p == f.dir {
@@ -417,7 +419,7 @@ type c18RunObs struct {
 	Err    string
 }
 
-func resClass(err error) int {
+func c18ResClass(err error) int {
 	if err == nil {
 		return 0
 	}
@@ -452,10 +454,10 @@ func (m *c18Mat) execute(spec c18Spec) *c18Exec {
 		if err != nil {
 			panic(err)
 		}
-		be = &fsBE{dir: d}
+		be = &c18FsBE{dir: d}
 		be.mkdir("locks") // FileStorage.Lock creates it; present from the start so that it is no difference
 	} else {
-		be = &memBE{b: doubles.NewMemBackend()}
+		be = &c18MemBE{b: doubles.NewMemBackend()}
 	}
 	defer be.close()
 	if spec.AlignPhase {
@@ -495,7 +497,7 @@ func (m *c18Mat) execute(spec c18Spec) *c18Exec {
 		if !w.tUnlock.IsZero() {
 			t1 = w.tUnlock
 		}
-		o := c18RunObs{Tid: i, T0: t0, T1: t1, Res: resClass(err)}
+		o := c18RunObs{Tid: i, T0: t0, T1: t1, Res: c18ResClass(err)}
 		if err != nil {
 			o.Err = err.Error()
 		}
@@ -575,8 +577,8 @@ func (ex *c18Exec) boundary(margin time.Duration) bool {
 	var thresholds []*big.Int // instants at which a decision flips, per run option
 	for _, r := range ex.runs {
 		rs := ex.spec.Runs[r.Tid]
-		lo := unixNs(r.T0.Add(-margin))
-		hi := unixNs(r.T1.Add(margin))
+		lo := c18UnixNs(r.T0.Add(-margin))
+		hi := c18UnixNs(r.T1.Add(margin))
 		thresholds = thresholds[:0]
 		nodes := []map[string]c18Node{ex.before} // stamps written by the runs themselves are handled below
 		for _, m := range nodes {
@@ -584,7 +586,7 @@ func (ex *c18Exec) boundary(margin time.Duration) bool {
 				if n.Dir {
 					continue
 				}
-				c := classify(n.Val)
+				c := c18Classify(n.Val)
 				if c.Cert != nil && strings.HasPrefix(k, "certificates/") {
 					// now - (floor(na/1e9)*1e9+1e9) >= grace
 					x := new(big.Int).Div(c.Cert, big.NewInt(1e9))
@@ -602,8 +604,8 @@ func (ex *c18Exec) boundary(margin time.Duration) bool {
 		// time stamps written by earlier runs of this case
 		for _, q := range ex.runs {
 			if rs.Interval > 0 && q.Tid != r.Tid {
-				a := new(big.Int).Add(unixNs(q.T0), big.NewInt(rs.Interval))
-				b := new(big.Int).Add(unixNs(q.T1), big.NewInt(rs.Interval))
+				a := new(big.Int).Add(c18UnixNs(q.T0), big.NewInt(rs.Interval))
+				b := new(big.Int).Add(c18UnixNs(q.T1), big.NewInt(rs.Interval))
 				// the whole interval [a,b] of possible thresholds must miss [lo,hi]
 				if !(b.Cmp(lo) < 0 || a.Cmp(hi) > 0) {
 					if os.Getenv("C18_DEBUG") != "" {
@@ -672,7 +674,7 @@ func (ex *c18Exec) encode() (wire string, obs map[string]any, feats map[string]s
 			h := sha256.Sum256(n.Val)
 			if _, ok := vidx[h]; !ok {
 				vidx[h] = len(vals)
-				vals = append(vals, val{fresh: pass == 1, cls: classify(n.Val)})
+				vals = append(vals, val{fresh: pass == 1, cls: c18Classify(n.Val)})
 			}
 		}
 	}
@@ -742,7 +744,7 @@ func (ex *c18Exec) encode() (wire string, obs map[string]any, feats map[string]s
 		} else {
 			e.Bool(true).Int(rs.Cancel)
 		}
-		e.Big(unixNs(r.T0).String()).Big(unixNs(r.T1).String()).Int(r.Res)
+		e.Big(c18UnixNs(r.T0).String()).Big(c18UnixNs(r.T1).String()).Int(r.Res)
 	}
 	e.Len(len(ex.trace))
 	for _, ev := range ex.trace {
@@ -783,11 +785,11 @@ func (ex *c18Exec) encode() (wire string, obs map[string]any, feats map[string]s
 		results = append(results, fmt.Sprintf("run%d:%d %s", r.Tid, r.Res, r.Err))
 	}
 	obs = map[string]any{"deleted": deleted, "added": added, "changed": changed, "results": results, "calls": calls}
-	feats = map[string]string{"deleted": bucket(len(deleted)), "calls": bucket(len(ex.trace))}
+	feats = map[string]string{"deleted": c18Bucket(len(deleted)), "calls": c18Bucket(len(ex.trace))}
 	return e.String(), obs, feats
 }
 
-func bucket(n int) string {
+func c18Bucket(n int) string {
 	switch {
 	case n == 0:
 		return "0"
@@ -1171,7 +1173,7 @@ func c18Corpus() []struct {
 func runC18(tier string, seed int64, outdir string, replay string) error {
 	w := emit.NewWriter(outdir, "C18", tier, seed)
 	defer w.Close()
-	mat := newC18Mat()
+	mat := c18NewMat()
 	skipped := 0
 	groundTruthOK, groundTruthDetail := true, ""
 
@@ -1195,7 +1197,7 @@ func runC18(tier string, seed int64, outdir string, replay string) error {
 			if !ok || n.Dir {
 				continue
 			}
-			c := classify(n.Val)
+			c := c18Classify(n.Val)
 			bad := false
 			switch it.Kind {
 			case "cert":
